@@ -1,6 +1,5 @@
 # Sourced by run.sh / setup.sh: offline Go environment and the harness build function.
-export GOFLAGS=-mod=mod GOPROXY=off GOSUMDB=off GOTOOLCHAIN=local GONOSUMDB='*' GONOSUMCHECK=1 GOFLAGS=-mod=mod
-export CGO_ENABLED_DEFAULT="${CGO_ENABLED:-}"
+export GOFLAGS=-mod=mod GOPROXY=off GOSUMDB=off GOTOOLCHAIN=local
 # The toolchain the repository's own test-suite is built with (go.mod: go 1.24.0).
 GO124=/root/go/pkg/mod/golang.org/toolchain@v0.0.1-go1.24.0.linux-amd64/bin/go
 if [ -x "$GO124" ]; then GO="$GO124"
